@@ -82,3 +82,10 @@ Theorem C09_shiftm_only_matching : forall s thr s' v,
   seq_step s (OShiftM thr) = (s', RShiftM (Some v)) -> shiftm_match thr (Some v) = true /\ s = Some v /\ s' = None.
 Proof. exact shiftm_returns_matching. Qed.
 Print Assumptions C09_shiftm_only_matching.
+
+(* No serial execution of the alphabet (the harness never stores a void value) ends with an
+   indexed void record (final-state clause). *)
+Theorem C09_final_state_never_void : forall l s, s <> Some VV -> Forall (fun o => o <> OSet VV) l ->
+  fst (sem_run seq_step s l) <> Some VV.
+Proof. exact seq_run_not_void. Qed.
+Print Assumptions C09_final_state_never_void.
